@@ -113,12 +113,12 @@ type finding struct {
 }
 
 type checkStats struct {
-	bytesCompared   int64
-	leaderCompared  int64
-	refusedSnapshot int
-	refusedLog      int
-	resumedReads    int
-	spotReads       int
+	bytesCompared    int64
+	leaderCompared   int64
+	refusedSnapshot  int
+	refusedLog       int
+	resumedReads     int
+	spotReads        int
 	transientDropped int
 }
 
@@ -182,9 +182,8 @@ func (w *world) metaFindings(s chanState, ctx string) []finding {
 // log range readable end to end, contiguous, byte == PRF(id, offset); offered snapshot complete and
 // == PRF(id, left, i); and (when the leader holds the same id) byte-identical to the leader's copy.
 // ids = every replication id used in the case (to tell whose bytes a mismatching run is).
-func checkFollower(fc, lc syncer.Channel, wd *world, rng *rand.Rand, ctx string, quiescent bool, st *checkStats) (chanState, []finding) {
-	var out []finding
-	s := stateOf(fc)
+func checkFollower(fc, lc syncer.Channel, wd *world, rng *rand.Rand, ctx string, quiescent bool, st *checkStats) (s chanState, out []finding) {
+	s = stateOf(fc)
 	if s.ID == "" {
 		return s, nil
 	}
@@ -301,7 +300,8 @@ func checkFollower(fc, lc syncer.Channel, wd *world, rng *rand.Rand, ctx string,
 					if lres.openErr == nil && lres.isAof && int64(len(lres.data)) == b-a {
 						st.leaderCompared += b - a
 						fo := int(a - s.Left)
-						for i := 0; i < int(b-a) && !bytes.Equal(lres.data, res.data[fo:fo+int(b-a)]); i++ {
+						same := bytes.Equal(lres.data, res.data[fo:fo+int(b-a)])
+						for i := 0; i < int(b-a) && !same; i++ {
 							if lres.data[i] != res.data[fo+i] {
 								d := base()
 								d["first_bad_offset"] = a + int64(i)
